@@ -21,6 +21,15 @@ TECH = "Lean 4 theorems over a hand-written executable model; tie = decision exp
 NOT_APPLICABLE = {}
 
 PROPS = {
+    "C19": dict(
+        level="proof", engines=[eng("sort", 20000, 2000000)], labels=["C19"],
+        text="Theorems (Props/C19.lean): MultiSorter.Less is the lexicographic order of its keys (multiLess_is_lex); the lexicographic order of strict weak orders is a "
+             "strict weak order (lex_swo); ID, Port, LastNodeError are strict weak orders; a sort driven by a strict weak order yields a permutation without inversions, "
+             "ties under k1 ordered by k2 (isort_perm, isort_sorted, sorted_ties). Tie (Tie/C19.lean): the three key bodies and the loop bound / switch / final return of Less are "
+             "regenerated from node.go on every run and proved equal to the model's keys for all nodes; exact differential run of Less(i,j) and Sort on generated slices.",
+        note="Trusted: Lean kernel; gx's translation of the three key bodies and of Less's decisions; sort.Sort's contract for strict weak orders (pdqsort itself is not modelled; "
+             "its output is compared with the model's sort on every generated slice); strconv.Atoi/Port() read as 'the numeric port'.",
+    ),
     "C02": dict(
         level="proof", engines=[eng("qc", 4000, 80000)], labels=["C02"],
         text="Theorems (Props/C02.lean): the reply loop computes, for every parameter value, quorum function, number of targeted nodes and arrival history, "
